@@ -495,7 +495,7 @@ def verdict(r):
     if r["outcome"] in ("timeout", "died"):
         return r["outcome"], str(r.get("status"))
     if r["outcome"] == "crash":
-        return "crash", "%s@%s" % (r["exc"]["type"], r["exc"]["where"])
+        return "crash", "%s@%s: %s" % (r["exc"]["type"], r["exc"]["where"], r["exc"]["msg"].splitlines()[0][:100] if r["exc"]["msg"] else "")
     crashes = [e for e in r["errors"] if e["type"] in ("CompilerCrash", "InternalError")]
     if crashes or r.get("traceback_in_log"):
         m = re.search(r"Compiler crash in (\w+)", crashes[0]["msg"]) if crashes else None
@@ -516,7 +516,247 @@ def verdict(r):
     return "positioned", r["errors"][0]["msg"].splitlines()[0][:120]
 
 
-# ---- input-side classification of the known families
+# ---- input-side classification: a known finding = (input family recognised in the source) + (failure kind and message)
+import builtins as _builtins, math as _math
+
+_BUILTIN_TYPE_NAMES = {n for n in dir(_builtins) if isinstance(getattr(_builtins, n), type)}
+_COMPS = (ast.ListComp, ast.SetComp, ast.DictComp, ast.GeneratorExp)
+_FUNCS = (ast.FunctionDef, ast.AsyncFunctionDef, ast.Lambda)
+
+
+def _is_num(e, kinds=(int, float, complex)):
+    """statically typed number for Cython: numeric literal or arithmetic / walrus over such"""
+    if isinstance(e, ast.Constant):
+        return type(e.value) in kinds
+    if isinstance(e, ast.UnaryOp) and isinstance(e.op, (ast.UAdd, ast.USub, ast.Invert)):
+        return _is_num(e.operand, kinds)
+    if isinstance(e, ast.BinOp):
+        return (_is_num(e.left, kinds) and _is_num(e.right)) or (_is_num(e.left) and _is_num(e.right, kinds))
+    if isinstance(e, ast.NamedExpr):
+        return _is_num(e.value, kinds)
+    return False
+
+
+def _is_c_literal(e):
+    """float/complex literal or a tuple of numeric literals: typed as a C value (double, double complex, ctuple)"""
+    if _is_num(e, (float, complex)):
+        return True
+    return isinstance(e, ast.Tuple) and bool(e.elts) and all(_is_num(x) for x in e.elts)
+
+
+def _has_bitop_on_float(e):
+    for n in ast.walk(e):
+        if isinstance(n, ast.UnaryOp) and isinstance(n.op, ast.Invert) and _is_num(n.operand, (float, complex)):
+            return True
+        if isinstance(n, ast.BinOp) and isinstance(n.op, (ast.LShift, ast.RShift, ast.BitOr, ast.BitAnd, ast.BitXor)) and \
+                (_is_num(n.left, (float, complex)) or _is_num(n.right, (float, complex))):
+            return True
+        if isinstance(n, ast.BinOp) and isinstance(n.op, (ast.Mod, ast.FloorDiv)) and (_is_num(n.left, (complex,)) or _is_num(n.right, (complex,))):
+            return True
+    return False
+
+
+def _module_bindings(tree):
+    """name -> number of binding occurrences visible at module scope (stores, imports, def/class, global declarations)"""
+    c = {}
+    def add(x):
+        c[x] = c.get(x, 0) + 1
+    for n in ast.walk(tree):
+        if isinstance(n, ast.Name) and isinstance(n.ctx, ast.Store):
+            add(n.id)
+        elif isinstance(n, ast.alias):
+            add((n.asname or n.name).split(".")[0])
+        elif isinstance(n, (ast.FunctionDef, ast.AsyncFunctionDef, ast.ClassDef)):
+            add(n.name)
+    return c
+
+
+def _terminates(s):
+    """statement after which the rest of its block is unreachable"""
+    if isinstance(s, (ast.Return, ast.Raise, ast.Continue, ast.Break)):
+        return True
+    if isinstance(s, ast.If):
+        if isinstance(s.test, ast.Constant) and s.test.value and _block_terminates(s.body):
+            return True
+        return bool(s.orelse) and _block_terminates(s.body) and _block_terminates(s.orelse)
+    if isinstance(s, (ast.Try, getattr(ast, "TryStar", ast.Try))):
+        return _block_terminates(s.finalbody) or (_block_terminates(s.body) and all(_block_terminates(h.body) for h in s.handlers)) \
+            or (bool(s.orelse) and _block_terminates(s.orelse) and all(_block_terminates(h.body) for h in s.handlers))
+    if isinstance(s, (ast.For, ast.AsyncFor, ast.While)):
+        return bool(s.orelse) and _block_terminates(s.orelse) or \
+            (isinstance(s, ast.While) and isinstance(s.test, ast.Constant) and bool(s.test.value))
+    if isinstance(s, (ast.With, ast.AsyncWith)):
+        return _block_terminates(s.body)
+    return False
+
+
+def _block_terminates(b):
+    return any(_terminates(s) for s in b)
+
+
+def _walk_no_scopes(n):
+    """sub-nodes of n without entering nested function / lambda / class bodies"""
+    todo = list(ast.iter_child_nodes(n))
+    while todo:
+        x = todo.pop()
+        yield x
+        if not isinstance(x, _FUNCS + (ast.ClassDef,)):
+            todo.extend(ast.iter_child_nodes(x))
+
+
+def _ast_families(src, tree):
+    f = set()
+    parent = {}
+    for n in ast.walk(tree):
+        for c in ast.iter_child_nodes(n):
+            parent[c] = n
+
+    def enclosing(n, kinds):
+        p = parent.get(n)
+        while p is not None and not isinstance(p, kinds):
+            p = parent.get(p)
+        return p
+
+    def has(n, kinds):
+        return any(isinstance(x, kinds) for x in ast.walk(n))
+
+    def cond_exprs(n):
+        if isinstance(n, (ast.If, ast.While, ast.IfExp, ast.Assert)):
+            yield n.test
+        if isinstance(n, ast.comprehension):
+            yield from n.ifs
+        if isinstance(n, ast.BoolOp):
+            yield from n.values
+        if isinstance(n, ast.UnaryOp) and isinstance(n.op, ast.Not):
+            yield n.operand
+        if isinstance(n, ast.match_case) and n.guard is not None:
+            yield n.guard
+
+    bound_names = None
+    for n in ast.walk(tree):
+        if isinstance(n, ast.match_case):
+            for k in n.body:
+                if has(k, (ast.FunctionDef, ast.AsyncFunctionDef)):
+                    f.add("def_in_match_case")
+        if isinstance(n, getattr(ast, "TypeAlias", ())) or getattr(n, "type_params", None):
+            f.add("pep695")
+        # --- blocks: a lambda in statements that follow a terminating statement
+        for field in ("body", "orelse", "finalbody"):
+            blk = getattr(n, field, None)
+            if isinstance(blk, list) and blk and isinstance(blk[0], ast.stmt):
+                for i, s in enumerate(blk[:-1]):
+                    if _terminates(s):
+                        if any(has(t, (ast.Lambda, ast.GeneratorExp)) for t in blk[i + 1:]):
+                            f.add("closure_in_unreachable_code")
+                        break
+        if isinstance(n, getattr(ast, "TryStar", ())):
+            if enclosing(n, _FUNCS) is None:
+                f.add("except_star_outside_function")
+            for h in n.handlers:
+                if isinstance(h.type, ast.Tuple) and not h.type.elts:
+                    f.add("except_star_empty_tuple")
+        if isinstance(n, ast.Constant) and isinstance(n.value, complex) and _math.isinf(n.value.imag):
+            f.add("imag_literal_overflows_to_inf")
+        if isinstance(n, ast.Compare) and len(n.ops) > 1 and isinstance(n.ops[0], (ast.In, ast.NotIn)) and \
+                any(_is_c_literal(c) for c in n.comparators[1:]):
+            f.add("in_cascade_with_c_literal_operand")
+        if isinstance(n, ast.Compare) and any(isinstance(o, (ast.Lt, ast.Gt, ast.LtE, ast.GtE)) and
+                                              (_is_num(a, (complex,)) or _is_num(b, (complex,)))
+                                              for o, a, b in zip(n.ops, [n.left] + n.comparators, n.comparators)):
+            f.add("complex_literal_ordering")
+        if isinstance(n, ast.Assign) and isinstance(n.value, ast.Subscript) and isinstance(n.value.slice, ast.Slice) and \
+                any(isinstance(t, (ast.Tuple, ast.List)) for t in n.targets):
+            lo = n.value.slice.lower
+            if lo is not None and not _is_num(lo, (int,)):
+                f.add("unpack_slice_with_nonliteral_start")
+        if isinstance(n, ast.Subscript):
+            sl = n.slice
+            parts = [sl] if isinstance(sl, ast.Slice) else [x for x in getattr(sl, "elts", []) if isinstance(x, ast.Slice)] if isinstance(sl, ast.Tuple) else []
+            for p in parts:
+                for b in (p.lower, p.upper):
+                    if isinstance(b, ast.Name) and b.id in _BUILTIN_TYPE_NAMES and isinstance(sl, ast.Slice) and p.step is None:
+                        f.add("slice_bound_is_builtin_type_name")
+                    if b is not None and _is_num(b, (float, complex)):
+                        f.add("slice_bound_float_literal")
+                    if isinstance(b, ast.Tuple) and isinstance(sl, ast.Slice):
+                        f.add("slice_bound_tuple_literal")
+            if isinstance(sl, ast.Starred) or (isinstance(sl, ast.Tuple) and any(isinstance(x, ast.Starred) for x in sl.elts)):
+                f.add("star_in_subscript")
+        if isinstance(n, ast.BoolOp) and any(isinstance(v, ast.Tuple) and v.elts and all(_is_num(x) for x in v.elts) for v in n.values):
+            f.add("bool_operand_numeric_tuple_literal")
+        if isinstance(n, ast.ClassDef):
+            hdr = list(n.bases) + [k.value for k in n.keywords] + list(n.decorator_list)
+            if any(has(h, _COMPS) for h in hdr):
+                f.add("comprehension_in_class_header")
+            if any(has(h, ast.NamedExpr) for h in list(n.bases) + [k.value for k in n.keywords]):
+                f.add("walrus_in_class_header")
+        if isinstance(n, ast.GeneratorExp) and enclosing(n, _FUNCS) is None and has(n, ast.NamedExpr):
+            f.add("walrus_in_module_level_genexpr")
+        if isinstance(n, ast.AugAssign) and has(n.target, ast.GeneratorExp):
+            f.add("augassign_target_contains_genexpr")
+        if isinstance(n, ast.JoinedStr):
+            for fv in n.values:
+                if isinstance(fv, ast.FormattedValue):
+                    inner = [x for x in ast.walk(fv.value) if isinstance(x, ast.JoinedStr)]
+                    spec = fv.format_spec
+                    if spec is not None:
+                        inner += [x for v in spec.values if isinstance(v, ast.FormattedValue) for x in ast.walk(v.value) if isinstance(x, ast.JoinedStr)]
+                    for j in inner:
+                        seg = ast.get_source_segment(src, j) or ""
+                        if "{{" in seg or "}}" in seg:
+                            f.add("nested_fstring_with_doubled_braces")
+        if isinstance(n, (ast.UnaryOp, ast.BinOp)) and _has_bitop_on_float(n):
+            f.add("bitop_on_float_literal")
+        if isinstance(n, ast.AugAssign) and isinstance(n.op, (ast.LShift, ast.RShift, ast.BitOr, ast.BitAnd, ast.BitXor)) and _is_num(n.value, (float, complex)):
+            f.add("bitop_on_float_literal")
+        if isinstance(n, ast.Call) and _is_num(n.func):
+            f.add("call_of_numeric_literal")
+        if isinstance(n, (ast.FunctionDef, ast.AsyncFunctionDef, ast.ClassDef)) and any(_is_num(d) for d in n.decorator_list):
+            f.add("call_of_numeric_literal")
+        if isinstance(n, ast.Starred) and isinstance(getattr(n, "ctx", None), ast.Load) and \
+                (_is_num(n.value) or (isinstance(n.value, ast.Constant) and isinstance(n.value.value, bool))):
+            f.add("star_unpack_of_numeric_literal")
+        if isinstance(n, ast.ExceptHandler) and isinstance(n.type, ast.Tuple) and any(isinstance(x, ast.Starred) for x in n.type.elts):
+            f.add("starred_in_except_tuple")
+        if (isinstance(n, ast.comprehension) and n.is_async or isinstance(n, ast.AsyncFor)) and \
+                (_is_num(n.iter) or (isinstance(n.iter, ast.Constant) and isinstance(n.iter.value, bool))):
+            f.add("async_for_over_numeric_literal")
+        if isinstance(n, ast.IfExp) and ((_is_c_literal(n.body) and _is_c_literal(n.orelse) and
+                                          isinstance(n.body, ast.Tuple) != isinstance(n.orelse, ast.Tuple))):
+            f.add("condexpr_number_vs_tuple_literal")
+        for c in cond_exprs(n):
+            if _is_num(c, (complex,)):
+                f.add("complex_literal_truth_test")
+        if isinstance(n, (ast.FunctionDef, ast.AsyncFunctionDef, ast.Lambda)):
+            a = n.args
+            if any(has(d, ast.Await) for d in list(a.defaults) + [d for d in a.kw_defaults if d is not None]):
+                f.add("await_in_nested_def_header")
+        if isinstance(n, ast.BoolOp) and len(n.values) > 1000 or isinstance(n, ast.Compare) and len(n.ops) > 1000:
+            f.add("flat_chain_over_1000_terms")
+        if isinstance(n, (ast.FunctionDef, ast.AsyncFunctionDef, ast.ClassDef)) and any(has(d, ast.Await) for d in n.decorator_list):
+            f.add("await_in_nested_def_header")
+        if isinstance(n, ast.ClassDef) and any(has(h, ast.Await) for h in list(n.bases) + [k.value for k in n.keywords]):
+            f.add("await_in_nested_def_header")
+        if isinstance(n, (ast.With, ast.AsyncWith)) and any(i.optional_vars is not None and has(i.optional_vars, _COMPS + (ast.Lambda,)) for i in n.items):
+            f.add("closure_in_with_target")
+        if isinstance(n, ast.GeneratorExp) and isinstance(n.generators[0].iter, ast.Attribute):
+            f.add("genexpr_over_attribute_of_builtin_value")
+        if isinstance(n, ast.Call):
+            for k in n.keywords:
+                if k.arg is None and isinstance(k.value, ast.Dict) and any(kk is not None and not isinstance(kk, ast.Constant) for kk in k.value.keys):
+                    f.add("call_with_double_star_dict_display_computed_key")
+                vals = [k.value] + (list(k.value.values) if isinstance(k.value, ast.Dict) else [])
+                if any(_has_bitop_on_float(v) for v in vals):
+                    f.add("bitop_on_float_literal_in_call_keyword")
+        if isinstance(n, ast.AnnAssign) and isinstance(n.target, ast.Name) and enclosing(n, _FUNCS + (ast.ClassDef,)) is None \
+                and not (isinstance(n.annotation, ast.Name) and n.annotation.id in _BUILTIN_TYPE_NAMES):
+            if bound_names is None:
+                bound_names = _module_bindings(tree)
+            if bound_names.get(n.target.id, 0) >= 2:
+                f.add("module_global_reannotated_with_non_type")
+    return f
+
+
 def _src_features(src):
     f = set()
     if re.search(r"(?<![\w.])[1-9][0-9_]{4300,}(?![\w.])", src) and any(len(x.replace("_", "")) > 4300 for x in re.findall(r"(?<![\w.])[1-9][0-9_]{4300,}(?![\w.jJeE])", src)):
@@ -528,6 +768,8 @@ def _src_features(src):
             f.add("imag_literal_leading_zero_underscore")
     if re.search(r"\\[4-7][0-7][0-7]", src):
         f.add("octal_escape_above_377_in_str")
+    if re.search(r"-\s*0[xXoObB][0-9a-fA-F_]{3500,}", src):
+        f.add("negated_int_literal_over_4300_digits")
     m = re.match(r"(?:\s*#[^\n]*\n)*", src)
     head = m.group(0) if m else ""
     for name, val in re.findall(r"#\s*cython\s*:\s*([\w.]+)\s*=\s*([^\s,]*)", head):
@@ -535,71 +777,102 @@ def _src_features(src):
             f.add("header_directive_warn_nogil_value")
         if name in ("c_compile_guard", "test_assert_path_exists", "test_fail_if_path_exists", "test_body_needs_exception_handling"):
             f.add("wrong_scope_header_directive")
+    if re.search(r"\bstr\s+\w+\b[^\n]*\)\s*:", src) and re.search(r"^\s*\w+\[[^\]:]+\]\s*=[^=]", src, re.M):
+        f.add("typed_str_item_assignment")      # .pyx only: 'def f(str s, int i, v): s[i] = v'
     try:
         with warnings.catch_warnings():
             warnings.simplefilter("ignore")
             tree = ast.parse(src)
     except Exception:
         return f
-    for n in ast.walk(tree):
-        if isinstance(n, ast.match_case):
-            for k in n.body:
-                for s in ast.walk(k):
-                    if isinstance(s, (ast.FunctionDef, ast.AsyncFunctionDef)):
-                        f.add("def_in_match_case")
-        if isinstance(n, getattr(ast, "TypeAlias", ())) or getattr(n, "type_params", None):
-            f.add("pep695")
-        if isinstance(n, (ast.FunctionDef, ast.AsyncFunctionDef)):
-            for i, s in enumerate(n.body):
-                if isinstance(s, ast.If) and isinstance(s.test, ast.Constant) and s.test.value and \
-                        any(isinstance(x, ast.Return) for x in s.body):
-                    if any(isinstance(y, ast.Lambda) for t in n.body[i + 1:] for y in ast.walk(t)):
-                        f.add("lambda_after_constant_true_return")
+    try:
+        f |= _ast_families(src, tree)
+    except RecursionError:
+        pass
     return f
 
 
+# (class, failure kind, regex on the failure detail, input family that must be present in the source).  A failure is attributed
+# to a class only if BOTH the family is recognised in the input and the failure has the family's kind and message; any other
+# crash / C error / rejection gets a generic crash-site name that is never registered as known -> VIOLATION.
+FAMILY_RULES = [
+    # literal front end (classes with theorems / earlier repairs)
+    ("octal_escape_above_377_in_str", "crash", r"UnicodeEncodeError", "octal_escape_above_377_in_str"),
+    ("decimal_literal_over_4300_digits", "crash", r"ValueError|MarkOverflowingArithmetic", "decimal_literal_over_4300_digits"),
+    ("legacy_octal_literal_digit_8_9", "crash", r"ValueError|MarkOverflowingArithmetic", "legacy_octal_literal_digit_8_9"),
+    ("negated_int_literal_over_4300_digits", "crash", r"ValueError.*unop_node|unop_node.*ValueError", "negated_int_literal_over_4300_digits"),
+    ("header_directive_warn_nogil_value", "crash", r"Options\.py:parse_directive_value", "header_directive_warn_nogil_value"),
+    ("wrong_scope_header_directive", "crash", r"wrong_scope_error|InterpretCompilerDirectives", "wrong_scope_header_directive"),
+    ("imag_literal_leading_zero_underscore", "positioned", r"Syntax error in simple statement list|found '_[0-9_]*[jJ]'", "imag_literal_leading_zero_underscore"),
+    ("def_in_match_case_inline_call_crash", "crash", r"cf_is_null", "def_in_match_case"),
+    ("def_in_match_case_c_error", "c_error", r"__pyx_mdef_", "def_in_match_case"),
+    ("typed_str_setitem_c_index_invalid_c", "c_error", r"None.? undeclared", "typed_str_item_assignment"),
+    # triaged fuzz findings: crashes
+    ("closure_in_unreachable_code", "crash", r"AttributeError@Nodes\.py:generate_(execution_code|function_definitions)", "closure_in_unreachable_code"),
+    ("unpack_slice_with_nonliteral_start", "crash", r"ExprNodes\.py:(for_int|inferable_item_node)", "unpack_slice_with_nonliteral_start"),
+    ("comprehension_in_class_header", "crash", r"AssertionError@FlowControl\.py:find_in_stack", "comprehension_in_class_header"),
+    ("walrus_in_class_header", "crash", r"AttributeError@Code\.py:namespace_cname_in_module_state", "walrus_in_class_header"),
+    ("walrus_in_module_level_genexpr", "crash", r"AssertionError@ParseTreeTransforms\.py:create_class_from_scope", "walrus_in_module_level_genexpr"),
+    ("augassign_target_contains_genexpr", "crash", r"AttributeError@FlowControl\.py:check_definitions", "augassign_target_contains_genexpr"),
+    ("in_cascade_with_c_literal_operand", "crash", r"AttributeError@PyrexTypes\.py:widest_numeric_type", "in_cascade_with_c_literal_operand"),
+    ("in_cascade_with_c_literal_operand", "c_error", r"cannot convert to a pointer type", "in_cascade_with_c_literal_operand"),
+    ("call_with_double_star_dict_display_computed_key", "crash", r"TypeError@ExprNodes\.py:generate_sequence_as_array_code", "call_with_double_star_dict_display_computed_key"),
+    ("bitop_on_float_literal_in_call_keyword", "crash", r"AttributeError@ExprNodes\.py:generate_result_code", "bitop_on_float_literal_in_call_keyword"),
+    ("module_global_reannotated_with_non_type", "crash", r"AttributeError@ExprNodes\.py:_analyse_target_declaration", "module_global_reannotated_with_non_type"),
+    ("closure_in_with_target", "crash", r"UnspecifiedType|AssertionError@ParseTreeTransforms\.py:visit_ExprNode", "closure_in_with_target"),
+    ("closure_in_with_target", "positioned", r"^'[^']*' redeclared", "closure_in_with_target"),
+    ("flat_chain_over_1000_terms_recursion_error", "crash", r"RecursionError", "flat_chain_over_1000_terms"),
+    # triaged fuzz findings: generated C rejected by gcc
+    ("except_star_outside_function", "c_error", r"__pyx_skip_add_traceback.? undeclared", "except_star_outside_function"),
+    ("except_star_empty_tuple", "c_error", r"expected expression before .\). token", "except_star_empty_tuple"),
+    ("imag_literal_overflows_to_inf", "c_error", r"^.inf.? undeclared", "imag_literal_overflows_to_inf"),
+    ("slice_bound_is_builtin_type_name", "c_error", r"lvalue required as unary .&. operand", "slice_bound_is_builtin_type_name"),
+    ("slice_bound_tuple_literal", "c_error", r"incompatible type for argument . of .__Pyx_PyObject_(Get|Set|Del)Slice", "slice_bound_tuple_literal"),
+    ("bool_operand_numeric_tuple_literal", "c_error", r"unknown type name .__pyx_ctuple_", "bool_operand_numeric_tuple_literal"),
+    ("genexpr_over_attribute_of_builtin_value", "c_error", r"__pyx_genexpr_arg_\d+.? declared as a function", "genexpr_over_attribute_of_builtin_value"),
+    # triaged fuzz findings: valid Python rejected
+    ("nested_fstring_with_doubled_braces", "positioned",
+     r"single '}' is not allowed|Unexpected characters after f-string expression|empty expression not allowed in f-string|Unexpected token None:'' in string literal",
+     "nested_fstring_with_doubled_braces"),
+    ("await_in_nested_def_header", "positioned", r"^'await' not (supported here|allowed in generators)", "await_in_nested_def_header"),
+    ("star_in_subscript", "positioned", r"^starred expression is not allowed here", "star_in_subscript"),
+    ("starred_in_except_tuple", "positioned", r"^starred expression is not allowed here", "starred_in_except_tuple"),
+    ("complex_literal_truth_test", "positioned", r"^Type 'double complex' not acceptable as a boolean", "complex_literal_truth_test"),
+    ("condexpr_number_vs_tuple_literal", "positioned", r"^Incompatible types in conditional expression", "condexpr_number_vs_tuple_literal"),
+    # operations on numeric literals that CPython compiles (TypeError only if executed) and Cython types statically
+    ("static_operand_type_error_on_literal_operands", "positioned", r"^Invalid operand types? for ", "bitop_on_float_literal"),
+    ("static_operand_type_error_on_literal_operands", "positioned", r"^complex types are unordered", "complex_literal_ordering"),
+    ("call_of_numeric_literal", "positioned", r"^Calling non-function type '(long|double|double complex)'", "call_of_numeric_literal"),
+    ("slice_bound_float_literal", "positioned", r"^Cannot assign type '(double|double complex)' to 'Py_ssize_t'", "slice_bound_float_literal"),
+    ("star_unpack_of_numeric_literal", "positioned", r"^starred expression is not allowed here", "star_unpack_of_numeric_literal"),
+    ("async_for_over_numeric_literal", "positioned", r"^async for loops not allowed on C/C\+\+ types", "async_for_over_numeric_literal"),
+]
+
+
+def match_family(f, kind, detail):
+    """registered class whose input family (in feature set f) and failure kind/message both match, else None"""
+    for klass, k, rx, fam in FAMILY_RULES:
+        if k == kind and fam in f and re.search(rx, detail):
+            return klass
+    return None
+
+
 def classify(src, ext, vd, forced=None):
-    """class name of a violation, from the input where a known family is recognisable"""
+    """class name of a violation: a registered input family (source predicate + failure kind + message), else a generic
+    name built from the crash site / message (such names are never registered as known -> VIOLATION)"""
     kind, detail = vd
-    if forced:
-        return forced
-    f = _src_features(src)
+    k = match_family(_src_features(src), kind, detail)
+    if k:
+        return k
     if kind == "crash":
-        for k in ("octal_escape_above_377_in_str", "decimal_literal_over_4300_digits", "legacy_octal_literal_digit_8_9",
-                  "header_directive_warn_nogil_value", "wrong_scope_header_directive", "lambda_after_constant_true_return"):
-            if k in f and _crash_matches(k, detail):
-                return k
-        if "RecursionError" in detail:
-            return "deep_nesting_recursion_error"
-        if "unop_node" in detail and "ValueError" in detail:
-            return "negated_int_literal_over_4300_digits"
-        if "def_in_match_case" in f and "cf_is_null" in detail:
-            return "def_in_match_case_inline_call_crash"
         return "internal_crash:" + re.sub(r"[^A-Za-z0-9_@:.]+", "_", detail.split(": ")[0])[:70]
     if kind == "c_error":
-        if "def_in_match_case" in f and "__pyx_mdef_" in detail:
-            return "def_in_match_case_c_error"
         return "c_error:" + re.sub(r"[0-9]+", "N", re.sub(r"[^A-Za-z0-9_ ]+", "", detail))[:60].strip().replace(" ", "_")
     if kind == "positioned":
-        if "imag_literal_leading_zero_underscore" in f and (
-                "Syntax error in simple statement list" in detail or re.search(r"found '_[0-9_]*[jJ]'", detail)):
-            return "imag_literal_leading_zero_underscore"
-        if detail.startswith("Invalid operand type"):
-            return "static_operand_type_error_on_literal_operands"
         if "f-string expression" in detail:
             detail = detail.split(":")[0]
         return "valid_python_rejected:" + re.sub(r"'[^']*'", "'_'", detail)[:60].strip().replace(" ", "_")
     return kind + ":" + re.sub(r"[^A-Za-z0-9_]+", "_", detail)[:50]
-
-
-def _crash_matches(k, detail):
-    want = {"octal_escape_above_377_in_str": "UnicodeEncodeError", "decimal_literal_over_4300_digits": "ValueError",
-            "legacy_octal_literal_digit_8_9": "ValueError", "header_directive_warn_nogil_value": "Options.py:parse_directive_value",
-            "wrong_scope_header_directive": "wrong_scope_error", "lambda_after_constant_true_return": "return_type"}[k]
-    return want in detail or (k in ("decimal_literal_over_4300_digits", "legacy_octal_literal_digit_8_9") and "MarkOverflowingArithmetic" in detail) \
-        or (k == "wrong_scope_header_directive" and "InterpretCompilerDirectives" in detail) \
-        or (k == "lambda_after_constant_true_return" and "ReturnStatNode" in detail) \
-        or (k == "lambda_after_constant_true_return" and "AttributeError" in detail)
 
 
 def judge(ctx, src, ext, r, py_ok, forced=None):
@@ -622,7 +895,15 @@ def judge(ctx, src, ext, r, py_ok, forced=None):
         if "pep695" in _src_features(src):
             return None
         bad = [m_ for m_ in msgs if not allowlisted(m_)]
-        k = classify(src, ext, ("positioned", " | ".join(bad[:2]) if "_7j" in "".join(bad) or "found '_" in "".join(bad) else bad[0]), forced)
+        # every rejected message must belong to a registered family of this input; the first one that does not names the class
+        feats = _src_features(src)
+        ks = [match_family(feats, "positioned", m_) for m_ in bad]
+        if "imag_literal_leading_zero_underscore" in feats and match_family(feats, "positioned", " | ".join(bad[:2])):
+            ks = ["imag_literal_leading_zero_underscore"]       # '0_7j' is reported as a pair of syntax errors
+        if all(ks):
+            k = ks[0]
+        else:
+            k = classify(src, ext, ("positioned", bad[ks.index(None)]))
         ctx.fail(k, inp, ["positioned", bad[:3]], "CPython compiles this text: accepted, or rejected with an allowlisted message")
         return k
     return None
